@@ -23,7 +23,7 @@ from . import clock as simclock
 from .core import EventLog, digest_of, fbits, violation
 
 EPS = float(np.finfo(float).eps)
-FIXED_SOLVERS = ("euler", "runge-kutta", "implicit", "crank-nicolson", "adams-bashforth")
+FIXED_SOLVERS = ("euler", "runge-kutta", "implicit", "crank-nicolson", "adams-bashforth", "milstein")
 ADAPTIVE_SOLVERS = ("euler", "runge-kutta", "scipy")
 READONLY_KINDS = ("rec", "rec1", "data", "storage", "print", "progress", "consistency", "walltime", "material",
                   "steady", "maxruntime")
@@ -185,6 +185,8 @@ def gen_plan(rng, tier: str, idx: int, prop: str) -> dict:
         eq = {"kind": "diffusion", "cells": _pick(rng, (4, 6)), "D": rng.uniform(0.02, 0.2) / dt,
               "bc": _pick(rng, ("auto_periodic_neumann", "auto_periodic_dirichlet")),
               "periodic": rng.random() < 0.4, "u0_seed": rng.randrange(1 << 30)}
+    if solver == "milstein" and eq["kind"] != "diffusion":
+        solver = "euler"  # the Milstein solver wants an equation with the noise-variance interface (the library classes)
     # -- trackers
     ntr = _pick(rng, (0, 1, 1, 2, 2, 3, 3, 4, 5))
     if with_faults and ntr == 0:
@@ -538,7 +540,7 @@ def _run_once(plan, *, trackers_mode: str, faults_resolved=(), probe_stepper=Tru
             tr_arg = ["progress", "consistency", *tr_arg]
     t_range = plan["t_end"] if plan.get("t_range_scalar") and plan["t_start"] == 0.0 else (plan["t_start"], plan["t_end"])
     kw = {}
-    if plan["solver"] in ("euler", "runge-kutta"):
+    if plan["solver"] in ("euler", "runge-kutta", "explicit_mpi"):
         kw["adaptive"] = bool(plan["adaptive"])
         if plan["adaptive"]:
             kw["tolerance"] = plan["tolerance"]
@@ -619,7 +621,7 @@ def _reference_trajectory(plan, n_steps: int):
 
     eq, state0, autonomous = _make_equation(plan["eq"])
     kw = {}
-    if plan["solver"] in ("euler", "runge-kutta"):
+    if plan["solver"] in ("euler", "runge-kutta", "explicit_mpi"):
         kw["adaptive"] = False
     if plan["solver"] in ("implicit", "crank-nicolson"):
         kw["maxerror"] = 1e-10
